@@ -3,6 +3,7 @@ package h
 import (
 	"github.com/xjslang/xjs/ast"
 	"github.com/xjslang/xjs/compiler"
+	"github.com/xjslang/xjs/lexer"
 	"github.com/xjslang/xjs/parser"
 	"github.com/xjslang/xjs/token"
 	"github.com/xjslang/xjs/zzverif/sym"
@@ -35,7 +36,24 @@ func compileAll(prog *ast.Program) {
 // ZZH11Total: parsing any token buffer of <= T tokens in any mode terminates
 // (instruction budget = unwinding assertion), does not panic and obeys the
 // error contract (C11).
+// prelude: an earlier, differently configured job in the same process (a
+// plugin parser with operators registered on built-in and dynamic tokens).
+func prelude() {
+	lb := lexer.NewBuilder()
+	dyn := lb.RegisterTokenType("dyn")
+	pb := parser.NewBuilder(lb)
+	pb.RegisterPostfixOperator(token.NOT, mkPostfix)
+	pb.RegisterInfixOperator(token.COLON, parser.SUM, mkBinary)
+	pb.RegisterInfixOperator(dyn, parser.PRODUCT, mkBinary)
+	pb.RegisterPrefixOperator(token.MULTIPLY, mkPrefix)
+	pb.WithTolerantMode(true).WithSmartSemicolon(true)
+	pb.Build("a ! : b").ParseProgram()
+}
+
 func ZZH11Total() {
+	if sym.Param("prelude", 0) == 1 {
+		prelude()
+	}
 	T := sym.Param("T", 3)
 	n := sym.Choose("ntokens", T+1)
 	s := ContextScript(n)
